@@ -1,7 +1,7 @@
 """C17 — dataset equality means same multiset of rankings, nothing else."""
 from collections import Counter
 from hypothesis import strategies as st
-from vlib import gen, lib, oracle
+from vlib import gen, lib, oracle, mutate
 from vlib.harness import HypSub
 from vlib.lib import Violation
 
@@ -28,7 +28,8 @@ def pair_cases(draw, tier):
     ds = draw(gen.datasets(max_n=10 if big else 8, max_m=5))
     a = ds["rankings"]
     mode = draw(st.sampled_from(["equal", "equal", "equal", "moved", "swapped", "split", "merged", "multiplicity",
-                                 "replaced", "independent", "space_name", "comma_name", "normalised", "normalised"]))
+                                 "replaced", "independent", "space_name", "comma_name", "normalised", "normalised",
+                                 "recombined", "recombined"]))
     b = [[list(draw(st.permutations(bk))) for bk in r] for r in draw(st.permutations(a))]
     if mode == "moved":
         cand = [(i, j) for i, r in enumerate(b) for j in range(len(r) - 1)]
@@ -60,6 +61,22 @@ def pair_cases(draw, tier):
             del b[i]
         else:
             b.insert(i, [list(x) for x in b[i]])
+    elif mode == "recombined":
+        # A = {X.Y, X'.Y'} (+ common rankings), B = {X.Y', X'.Y}: X, X' weak orders of one half of the elements, Y, Y' of
+        # the other half.  Every per-element statistic agrees (multiset of positions of each element, pairwise cost
+        # table, completeness, ties), the multisets of rankings differ as soon as X != X' and Y != Y'
+        univ = oracle.universe(a)
+        if len(univ) >= 4:
+            k = draw(st.integers(2, len(univ) - 2))
+            left, right = univ[:k], univ[k:]
+            x1, x2 = draw(gen.weak_order_of(list(draw(st.permutations(left))))), \
+                draw(gen.weak_order_of(list(draw(st.permutations(left)))))
+            y1, y2 = draw(gen.weak_order_of(list(draw(st.permutations(right))))), \
+                draw(gen.weak_order_of(list(draw(st.permutations(right)))))
+            common = [r for r in a[:draw(st.integers(0, 2))]]
+            a = [x1 + y1, x2 + y2] + common
+            b = [x1 + y2, x2 + y1] + common
+            b = [[list(draw(st.permutations(bk))) for bk in r] for r in draw(st.permutations(b))]
     elif mode == "replaced":
         univ = oracle.universe(a)
         e = draw(st.sampled_from(univ))
@@ -86,8 +103,13 @@ def pair_cases(draw, tier):
         b = [[["a", "b"]], [["b", "a"]]] if draw(st.booleans()) else [[["a, b"]], [["a, b"]]]
     if not any(x for r in b for x in r):
         b = [[list(x) for x in r] for r in a]
-    return {"a": a, "b": b, "mode": mode, "names": [draw(st.sampled_from(["", "A", "None"])),
-                                                     draw(st.sampled_from(["", "B", "None"]))]}
+    # one pair in three: the second dataset is built through another public route than Dataset.from_raw_list (the
+    # constructor, sets of Element objects, text, a file, a projection keeping everything)
+    route = draw(st.sampled_from([None, None] + mutate.ROUTES[:1] + mutate.ROUTES[1:]))
+    if route is not None and draw(st.integers(0, 1)):
+        route = None
+    return {"a": a, "b": b, "mode": mode, "route_b": route,
+            "names": [draw(st.sampled_from(["", "A", "None"])), draw(st.sampled_from(["", "B", "None"]))]}
 
 
 def model_counter(rankings):
@@ -97,6 +119,9 @@ def model_counter(rankings):
 def check(case, ctx):
     a, b = case["a"], case["b"]
     da, db = lib.mk_dataset(a, case["names"][0]), lib.mk_dataset(b, case["names"][1])
+    if case.get("route_b"):
+        with lib.quiet():
+            db = lib.must(mutate.build_route, b, case["route_b"])
     want = model_counter(a) == model_counter(b)
     order_differs = any(len(bk) > 1 for r in a for bk in r) and case["mode"] == "equal"
     ctx.stats.case(case, order_differs or case["mode"] not in ("equal", "independent"),
